@@ -1098,7 +1098,7 @@ func (e *Exec) keyMatch(s *State, m MapV, k Value) []keyAlt {
 	}
 	var alts []keyAlt
 	for i, c := range conds {
-		if c.isFalse() {
+		if c.isFalse() || !e.feasible(s, c) {
 			continue
 		}
 		e.forks++
@@ -1106,7 +1106,7 @@ func (e *Exec) keyMatch(s *State, m MapV, k Value) []keyAlt {
 		s2.assume(c)
 		alts = append(alts, keyAlt{i, s2})
 	}
-	if !none.isFalse() {
+	if !none.isFalse() && (len(alts) == 0 || e.feasible(s, none)) {
 		s.assume(none)
 		alts = append(alts, keyAlt{-1, s})
 	}
